@@ -1,6 +1,6 @@
 (* C13 - a MultiChain is its chains, sharing identical tasks.  Statements only. *)
 From Coq Require Import String Ascii List Bool Arith ZArith.
-From TC Require Import PyStr Value Dict Repr Param Config Key Chain World Eval History EvalProofs HistoryProofs MultiProofs.
+From TC Require Import PyStr Value Dict Repr Param Config Key Chain World Eval History EvalProofs HistoryProofs MultiProofs Sharing SharingProofs.
 Import ListNotations.
 
 (* a MultiChain is the fold of chain constructions over one set of task objects and one registry *)
@@ -78,3 +78,36 @@ Proof.
   destruct g'; split; intros E; try reflexivity; try discriminate.
 Qed.
 Print Assumptions C13_force_fans_out.
+
+(* The registry key of the code also names the data directory of the config.  For every sequence of registrations
+   through one registry - the tasks of all members of a MultiChain, in the order they are created: two of them are one
+   object exactly when data directory, slug name and hash agree, that is when they are stored at one location *)
+Theorem C13_shared_iff_same_location : forall ls i j d1 s1 k1 d2 s2 k2 a b,
+  nth_error ls i = Some (d1, s1, k1) -> nth_error ls j = Some (d2, s2, k2) ->
+  nth_error (share ls) i = Some a -> nth_error (share ls) j = Some b ->
+  (a = b <-> d1 = d2 /\ s1 = s2 /\ k1 = k2).
+Proof. exact share_iff_same_location. Qed.
+Print Assumptions C13_shared_iff_same_location.
+
+(* ... in particular members with equal parameters and inputs but different data directories share nothing *)
+Theorem C13_other_directory_other_object : forall ls i j d1 d2 s k a b,
+  nth_error ls i = Some (d1, s, k) -> nth_error ls j = Some (d2, s, k) ->
+  nth_error (share ls) i = Some a -> nth_error (share ls) j = Some b -> d1 <> d2 -> a <> b.
+Proof. exact other_directory_other_object. Qed.
+Print Assumptions C13_other_directory_other_object.
+
+(* the same for a registry that already holds objects (a chain built later over the same shared registry): what is
+   registered is served, and any two registrations share exactly on equal keys *)
+Theorem C13_registry_histories : forall (K : Type) (keqb : K -> K -> bool),
+  (forall a b, keqb a b = true <-> a = b) ->
+  forall st ks st' ids i j ki kj a b,
+  RegInv K st -> krun keqb st ks = (st', ids) ->
+  nth_error ks i = Some ki -> nth_error ks j = Some kj -> nth_error ids i = Some a -> nth_error ids j = Some b ->
+  (a = b <-> ki = kj).
+Proof. exact krun_shared_iff_same_key. Qed.
+Print Assumptions C13_registry_histories.
+
+Example C13_share_example :
+  share [(lit "d0", lit "src", lit "h1"); (lit "d0", lit "dst", lit "h2"); (lit "d1", lit "src", lit "h1");
+         (lit "d0", lit "src", lit "h1"); (lit "d0", lit "dst", lit "h3")] = [0; 1; 2; 0; 3].
+Proof. vm_compute. reflexivity. Qed.
